@@ -314,7 +314,7 @@ func provenance(c Case, r Result, prop string) *Violation {
 			if !scen.IsStream(ci.Kind) && len(e.Replies) != e.N {
 				return viol(prop+"/provenance/"+fam+"/delivered-twice", "call %d (%s): invocation %d of the quorum function was shown %d replies (a reply was delivered more than once, or an invocation had no new reply)", ci.Idx, ci.Kind, e.N, len(e.Replies))
 			}
-			ids := r.IDs[ci.Mgr]
+			ids := idsOf(r, ci)
 			for id, rep := range e.Replies {
 				srv := -1
 				for s, sid := range ids {
@@ -403,7 +403,7 @@ var (
 // the code that handler returned.
 func errorProvenance(r Result, ci CallInfo, e scen.Event, prop string) *Violation {
 	fam := kindFamily(ci.Kind)
-	ids := r.IDs[ci.Mgr]
+	ids := idsOf(r, ci)
 	type ne struct {
 		srv  int
 		text string
